@@ -511,6 +511,7 @@ func buildGenerators(scripts []proto.GenScript) ([]gengo.Generator, error) {
 	for i := range noNewSlots {
 		noNewSlots[i] = nil
 	}
+	scalarSlot, scalarCores = nil, map[*scalarGen]*core{}
 	for i := range scripts {
 		s := &scripts[i]
 		switch s.Impl {
@@ -521,6 +522,12 @@ func buildGenerators(scripts []proto.GenScript) ([]gengo.Generator, error) {
 				out = append(out, &newGen{core{script: s}})
 			}
 		case "nonew":
+			if s.Scalar && s.NoAlias && scalarSlot == nil {
+				scalarSlot = s
+				g := scalarGen(100) // like the slots' prototypes: not the zero value
+				out = append(out, &g)
+				continue
+			}
 			pool := &aliasSlots
 			if s.NoAlias {
 				pool = &plainSlots
@@ -576,4 +583,29 @@ func fieldDocsComment(c gengo.Context, obj *types.TypeName) string {
 	}
 	sb.WriteString("\n")
 	return sb.String()
+}
+
+// scalarGen: a generator without New whose type has no fields. Its working state hangs off the identity of the
+// value gengo created for the package (a table keyed by the pointer); the integer counts the types it has seen.
+type scalarGen int
+
+var (
+	scalarSlot  *proto.GenScript
+	scalarCores = map[*scalarGen]*core{}
+)
+
+func (g *scalarGen) bind() *core {
+	c, ok := scalarCores[g]
+	if !ok {
+		c = &core{script: scalarSlot}
+		scalarCores[g] = c
+	}
+	return c
+}
+
+func (g *scalarGen) Name() string { return scalarSlot.Name }
+
+func (g *scalarGen) GenerateType(c gengo.Context, t *types.Named) error {
+	*g++
+	return g.bind().GenerateType(c, t)
 }
